@@ -107,7 +107,11 @@ def run_text(text, timeout=None):
         finally:
             signal.alarm(0)
     except QueryException as ex:
-        return "query_error:" + type(ex).__name__, str(ex)[:200]
+        # the family the error belongs to (a subclass of the parse error is still a parse error)
+        from aw_query.exceptions import QueryFunctionException, QueryInterpretException, QueryParseException
+
+        fam = next((c.__name__ for c in (QueryParseException, QueryInterpretException, QueryFunctionException) if isinstance(ex, c)), "QueryException")
+        return "query_error:" + fam, str(ex)[:200]
     except _Timeout:
         return "timeout", ""
     except RecursionError as ex:
